@@ -713,13 +713,13 @@ def check_property(prop_id, tier, spec, seed):
             log("  [%s] %-60s %-8s %6.1fs %s" % (prop_id, s["name"], s["status"], s.get("wall_s", 0),
                 ("wit %d/%d" % (len(s.get("witness_reached", [])), s.get("witness_total", 0))) if s["status"] in ("ok", "failed") else s.get("detail", "")[:300]))
     jobmap = {j["name"]: j for j in jobs}
-    for s in shards:
+    def _process_shard(s):
         j = jobmap[s["job"]]
         if s["status"] in ("timeout", "oom"):
             not_covered.append("%s (%s after %.0fs)" % (s["name"], s["status"], s.get("wall_s", 0)))
-            continue
+            return
         if s["status"] == "error":
-            tool_errors.append("%s: %s" % (s["name"], s.get("detail", "")[:2000])); continue
+            tool_errors.append("%s: %s" % (s["name"], s.get("detail", "")[:2000])); return
         if j.get("witness_any"):
             if not s["witness_reached"]:
                 tool_errors.append("%s: VACUOUS - no witness reachable" % s["name"])
@@ -766,6 +766,8 @@ def check_property(prop_id, tier, spec, seed):
                     violations.append((s, desc, rpath))
             else:
                 tool_errors.append("%s: ENCODING-MISMATCH: CBMC counterexample for '%s' does not reproduce natively (values %s; native rc=%s out=%s)" % (s["name"], desc, vals[:12], nr["rc"], nr["out"][-300:]))
+    with cf.ThreadPoolExecutor(max_workers=8) as ex:
+        list(ex.map(_process_shard, shards))
     # const-API reachability (C20): const member functions of the named classes defined in the linked units vs. those that
     # survive dead-code elimination from the harness entry (= are reachable from the harness)
     const_cov = None
